@@ -273,11 +273,19 @@ class CGenCheck(Check):
         jf = os.path.join(workdir, 'job.json')
         with open(jf, 'w') as f:
             json.dump(job, f)
+        def limit_cpu():
+            import resource
+            resource.setrlimit(resource.RLIMIT_CPU, (120, 125))
         try:
+            # the budget is CPU time of the child (a loop in the generated code burns it); the wall clock is only a
+            # backstop and its expiry is inconclusive, never a verdict
             p = subprocess.run([sys.executable, os.path.join(env.VERIF_DIR, 'vlib', 'cdriver.py'), jf],
-                               capture_output=True, timeout=180, env=dict(os.environ, PYTHONHASHSEED='0'))
+                               capture_output=True, timeout=1500, env=dict(os.environ, PYTHONHASHSEED='0'),
+                               preexec_fn=limit_cpu)
         except subprocess.TimeoutExpired:
-            return ('timeout', None)
+            return ('inconclusive', None)
+        if p.returncode in (-24, -9):
+            return ('timeout', 'the driver used more than 120 s of CPU time')
         if p.returncode != 0:
             return ('crash', 'exit status %d: %s' % (p.returncode, p.stderr.decode('utf-8', 'replace')[-400:]))
         for line in p.stdout.decode().splitlines():
@@ -347,6 +355,9 @@ class CGenCheck(Check):
             job = {'verif': env.VERIF_DIR, 'spec': jsonio.spec_enc(spec), 'codec': codec, 'ns': 'ns',
                    'header': os.path.join(work, 'gen.h'), 'so': so, 'items': job_items}
             status, res = self.run_child(job, work)
+            if status == 'inconclusive':
+                rec.notes['driver-wall-clock-backstop(inconclusive)'] += 1
+                return
             if status != 'ok':
                 rec.fail(Failure('c-' + status, 'driving the generated code failed: %s' % (res,),
                                  dict(base_case, items=job_items), feats))
@@ -485,7 +496,7 @@ class CGenCheck(Check):
         rec.ev()
         try:
             p = subprocess.run(['stdbuf', '-o0', exe, '-runs=%d' % runs, '-seed=%d' % (env.seed() or 1), '-max_len=256',
-                                '-timeout=20', '-artifact_prefix=' + work + '/', corpus],
+                                '-timeout=60', '-artifact_prefix=' + work + '/', corpus],
                                capture_output=True, timeout=900)
         except subprocess.TimeoutExpired:
             rec.notes['libfuzzer-campaign-timeout'] += 1
